@@ -36,22 +36,35 @@ fn per_variant<V: Variant>(r: &mut Report, ctx: &Ctx) {
     }
     r.section(
         &name,
-        "8 hash values x 3 forms (bytes, hex, hex+prefix) x every buffer length 0..=N+64 x 3 sentinel fills: too small => BufferIsTooSmall and buffer untouched; otherwise Ok(N), buf[..N] == representation, buf[N..] untouched; distinct by enumeration; non-trivial = all",
-        &format!("8 x 3 x {} lengths x 3 fills", V::STRLEN + 65),
+        "8 hash values x 3 forms (bytes, hex, hex+prefix) x every buffer length 0..=N+64 and N+{100,127,128,129,256,1000}, 4096, 65536+N x 3 sentinel fills: too small => BufferIsTooSmall and buffer untouched; otherwise Ok(N), buf[..N] == representation, buf[N..] untouched; distinct by enumeration; non-trivial = all",
+        &format!("8 x 3 x {} lengths x 3 fills", V::STRLEN + 73),
         true,
         |s| {
             let vals = hash_values::<V>();
             let vals = &vals;
-            let nl = (V::STRLEN + 65) as u64;
+            let nl = (V::STRLEN + 73) as u64;
             s.acc = par_for(8 * 3 * nl * 3, 128, |idx, acc| {
                 let fill = [0x00u8, 0xa5, 0xff][(idx % 3) as usize];
                 let len = ((idx / 3) % nl) as usize;
                 let form = ((idx / 3 / nl) % 3) as usize;
                 let hv = &vals[(idx / 9 / nl) as usize];
                 let n = [V::SIZE, V::STRLEN - 2, V::STRLEN][form];
-                if len > n + 64 {
-                    return;
-                }
+                // lengths 0..=N+64 one by one, then a few much larger buffers
+                let len = if len > n + 64 {
+                    match len - (n + 65) {
+                        0 => n + 100,
+                        1 => n + 127,
+                        2 => n + 128,
+                        3 => n + 129,
+                        4 => n + 256,
+                        5 => n + 1000,
+                        6 => 4096,
+                        7 => 65536 + n,
+                        _ => return,
+                    }
+                } else {
+                    len
+                };
                 acc.evals += 1;
                 acc.transitions += 1;
                 acc.nontrivial += 1;
